@@ -16,6 +16,7 @@ Definition ROps : Ops R := {|
   o_ln := ln; o_exp := exp;
   o_lt := fun a b => if Rlt_dec a b then true else false;
   o_le := fun a b => if Rle_dec a b then true else false;
+  o_eq := fun a b => if Req_EM_T a b then true else false;
   o_absdiffeq := fun a b e => if Rle_dec (Rabs (a - b)) e then true else false;
   o_releq := fun a b e r => false;
   o_default := 0
@@ -58,4 +59,4 @@ Ltac norm_lits :=
   end;
   unfold Q2R; cbn [Qnum Qden]; rewrite ?Rinv_1, ?Rmult_1_r.
 
-Ltac reval := cbn [eval evals beval map nth ROps o_lit o_add o_sub o_mul o_div o_fma o_neg o_max o_ln o_exp o_lt o_le o_default].
+Ltac reval := cbn [eval evals beval map nth ROps o_lit o_add o_sub o_mul o_div o_fma o_neg o_max o_ln o_exp o_lt o_le o_eq o_default].
